@@ -533,7 +533,7 @@ func corpus() (ds []jdepth, ks []jkad) {
 
 func main() {
 	run := hx.Start("C22", "Aurora.C22.Corr",
-		"A: peer multisets over bins 0..31 (prefix of candidate bins around the quick-saturation number, empty bins, bins holding only unreachable peers, a few deep peers), random reachability 0..90%, radii 0..31/255, BinMaxPeers in {0,5,7,10,15,20,23,50}; each set connected in 3 orders (one with disconnect/reconnect churn); non-trivial = more than 3 peers; distinct by (quick, radius, per-bin (total, reachable)). B: real Kad, 15..55 events (Connected/Outbound/bootnode Outbound/Disconnected/Reachable public|private|unknown/SetRadius) over 10..22 peers; non-trivial = at least 3 event kinds; distinct by event list")
+		"A: peer multisets over bins 0..31 (prefix of candidate bins around the quick-saturation number, empty bins, bins holding only unreachable peers, a few deep peers), random reachability 0..90%, radii 0..31/255, BinMaxPeers in {0,5,7,10,15,20,23,50}; each set connected in 3 orders (one with disconnect/reconnect churn); non-trivial = more than 3 peers; distinct by (quick, radius, per-bin (total, reachable)). B: real Kad, 15..55 events (Connected/Outbound/bootnode Outbound/Disconnected/Reachable public|private|unknown/SetRadius) over 10..22 peers; non-trivial = at least 3 event kinds; distinct by event list. C: two goroutines on one real Kad, a Reachable call parked (through Options.ReachabilityFunc) on the last predicate evaluation of its depth computation while the other goroutine runs Disconnected/Connected/SetRadius/Reachable calls; non-trivial = parked and the depth of the final set differs from the depth before")
 
 	if run.Replay != "" {
 		var probe struct {
@@ -542,7 +542,11 @@ func main() {
 		if err := run.ReadReplay(&probe); err != nil {
 			panic(err)
 		}
-		if probe.Kind == "kad" {
+		if probe.Kind == "conc" {
+			var jc jconc
+			_ = run.ReadReplay(&jc)
+			doConc(run, jc)
+		} else if probe.Kind == "kad" {
 			var jc jkad
 			_ = run.ReadReplay(&jc)
 			doKad(run, jc)
@@ -571,6 +575,13 @@ func main() {
 	}
 	for i := 0; i < run.N(36, 600); i++ {
 		doKad(run, genKad(r))
+	}
+	// C: forced interleavings of two depth writers
+	for _, jc := range corpusConc() {
+		doConc(run, jc)
+	}
+	for i := 0; i < run.N(24, 300); i++ {
+		doConc(run, genConc(r))
 	}
 	run.Finish()
 }
